@@ -125,14 +125,9 @@ impl<'a> Gen<'a> {
         if self.ctxs.len() > 1 {
             // functions may only use globals of the top-level scope (block variables die, §4.3(4)),
             // and must not see names of enclosing functions (closures, §4.3(4)): such names are hidden
+            // (names of enclosing functions hide nothing: their locals are simply not visible in here, so a
+            // global of the same name is what such a name means)
             let mut hidden: Vec<String> = vec![];
-            for c in self.ctxs[1..self.ctxs.len() - 1].iter() {
-                for s in &c.scopes {
-                    for v in s {
-                        hidden.push(v.name.clone());
-                    }
-                }
-            }
             // block-scoped globals shadow top-level ones in the real resolver: hide those names too
             for s in self.ctxs[0].scopes[1..].iter() {
                 for v in s {
@@ -248,6 +243,21 @@ impl<'a> Gen<'a> {
             return None;
         }
         self.fault_pending = false;
+        // inside a nested function: a local of the enclosing function is not visible (reference error)
+        if self.ctxs.len() > 2 && self.r.chance(1, 2) {
+            let own: Vec<String> = self.ctxs.last().unwrap().scopes.iter().flatten().map(|v| v.name.clone()).collect();
+            let globals: Vec<String> = self.ctxs[0].scopes.iter().flatten().map(|v| v.name.clone()).collect();
+            let cands: Vec<String> = self.ctxs[1..self.ctxs.len() - 1]
+                .iter()
+                .flat_map(|c| c.scopes.iter().flatten().map(|v| v.name.clone()))
+                .filter(|n| !own.contains(n) && !globals.contains(n))
+                .collect();
+            if !cands.is_empty() {
+                let n = cands[self.r.below(cands.len() as u64) as usize].clone();
+                self.fault_used = Some("enclosing-local-not-visible");
+                return Some(ident(&n));
+            }
+        }
         let k = self.r.below(6);
         let (name, e) = match k {
             0 => ("zero-divisor", infix(Expr::Int(self.small_int().abs().min(1000) + 1), if self.r.chance(1, 2) { Op::Divide } else { Op::Modulo }, Expr::Int(0))),
@@ -813,7 +823,13 @@ impl<'a> Gen<'a> {
                 Some(Stmt::Expr(Expr::If { cond: Box::new(c), cons: vec![Stmt::Return(e)], alt: None }))
             }
             _ => {
-                // expression statement: a call with effects or any expression
+                // expression statement: a call with effects or any expression (its value becomes the
+                // "last statement's value"), now and then a call of a procedure right after it
+                if self.r.chance(1, 5) {
+                    if let Some(c) = self.call_of(&Ty::Null, depth) {
+                        return Some(Stmt::Expr(c));
+                    }
+                }
                 let t = self.random_type(1);
                 Some(Stmt::Expr(self.expr(&t, depth + 1)))
             }
